@@ -162,7 +162,16 @@ def _run_symex_job(job):
 
   def harness(exx):
     c = C.SymCtx(exx, env, params, known)
-    h(c)
+    try:
+      h(c)
+    except Exception as e:  # pylint: disable=broad-except
+      # An exception escaping the code under test (or the oracle tripping over
+      # an unexpected result shape) on a feasible path is a candidate
+      # violation; it only counts if the replay on the real stack raises too.
+      vals, exact = exx.model_values()
+      tb = traceback.format_exc()[-1500:]
+      raise symex.Violation('unexpected exception %s' % type(e).__name__, vals,
+                            tb)
 
   try:
     vs = ex.explore(harness, on_path=on_path)
